@@ -7,7 +7,8 @@ from harness import tlc, tracecheck, sk, handover_drv as hd
 from harness.sendpath_drv import Unmappable
 from harness.common import machinery_failure
 
-P_INV = ["I_C09_RejectedNotStored", "I_C09_RejectedNotServed", "I_C09_AcceptedStored", "I_C09_RejectionLeavesStateAsItWas", "I_C12_FoundStored", "I_C12_FoundBroadcast"]
+P_INV = ["I_C09_RejectedNotStored", "I_C09_RejectedNotServed", "I_C09_AcceptedStored", "I_C09_RejectionLeavesStateAsItWas", "I_C09_NoFlushFailure", "I_C12_FoundStored",
+         "I_C12_FoundBroadcast"]
 COMBOS = [("accepted relay block", True, True, 0), ("rejected relay block", False, True, 0), ("bulk-download block, not validated", True, False, 77)]
 
 
@@ -20,13 +21,19 @@ def stage(chk, quick, rng, pid, cfg, keys, build_universe):
     stops = None
     # ---- design level: the repaired order holds the P invariants in every interleaving; each repair is necessary
     for (name, xv, xd, irt) in COMBOS:
-        c = {"XValid": xv, "XValidated": xd, "MinerOn": True, "EmitHist": False, "SaveAfterValidation": True, "SelectiveClear": True, "AtomicRollback": True, "MinerHandOverValidated": True}
+        c = {"XValid": xv, "XValidated": xd, "MinerOn": True, "EmitHist": False, "SaveAfterValidation": True, "SelectiveClear": True, "AtomicRollback": True, "MinerHandOverValidated": True, "SaveBeforePublish": True}
         r = tracecheck.model("MC_Handover", "MSpec", c, workers=2, timeout=600, view="View", invariants=P_INV, properties=["A_C12_AdoptedAtHandOver"])
         tlc.require_clean(r, "MC_Handover")
         chk.add_tlc("MC_Handover (%s x found block, every interleaving of the source lines)" % name, r, constants=str(c))
         if r.violated:
             return machinery_failure(pid, "Handover (repaired order) violates %s" % r.violated)
-    base = {"XValid": False, "XValidated": True, "MinerOn": True, "EmitHist": False, "MinerHandOverValidated": True}
+    base = {"XValid": False, "XValidated": True, "MinerOn": True, "EmitHist": False, "MinerHandOverValidated": True, "SaveBeforePublish": True}
+    rp = tracecheck.model("MC_Handover", "MSpec", dict(base, XValid=True, SaveAfterValidation=True, SelectiveClear=True, AtomicRollback=True, SaveBeforePublish=False), workers=2, timeout=600,
+                          view="View", invariants=["I_C09_NoFlushFailure"])
+    chk.add_tlc("Handover necessity run: the accepted block is published before it is buffered (a block found on top of it reaches the buffer first: the flush "
+                "hits the foreign key of the chain table)", rp, expect_violation="I_C09_NoFlushFailure")
+    if not rp.violated:
+        return machinery_failure(pid, "vacuity: Handover with SaveBeforePublish=FALSE never fails a flush")
     rv = tracecheck.model("MC_Handover", "MSpec", dict(base, SaveAfterValidation=True, SelectiveClear=True, AtomicRollback=True, MinerHandOverValidated=False), workers=2, timeout=600,
                           view="View", invariants=["I_C09_RejectionLeavesStateAsItWas"])
     chk.add_tlc("Handover necessity run: the miner's hand-over does not count as validated (a later rejection rolls the found block out of the state)", rv,
@@ -48,7 +55,7 @@ def stage(chk, quick, rng, pid, cfg, keys, build_universe):
     n = 45 if quick else 700
     nfeas = ntot = 0
     for (name, xv, xd, irt) in COMBOS:
-        c = {"XValid": xv, "XValidated": xd, "MinerOn": True, "EmitHist": True, "SaveAfterValidation": sw["SaveAfterValidation"], "SelectiveClear": sw["SelectiveClear"], "AtomicRollback": sw["AtomicRollback"], "MinerHandOverValidated": True}
+        c = {"XValid": xv, "XValidated": xd, "MinerOn": True, "EmitHist": True, "SaveAfterValidation": sw["SaveAfterValidation"], "SelectiveClear": sw["SelectiveClear"], "AtomicRollback": sw["AtomicRollback"], "MinerHandOverValidated": True, "SaveBeforePublish": sw["SaveBeforePublish"] or not sw["SaveAfterValidation"]}
         rg = tracecheck.model("MC_Handover", "MSpec", c, workers=1, timeout=900, invariants=["I_Emit"])
         tlc.require_clean(rg, "MC_Handover gen")
         hs = tlc.tagged(rg, "HIST")
@@ -64,6 +71,14 @@ def stage(chk, quick, rng, pid, cfg, keys, build_universe):
             return None not in (n5, r2, m5, m7) and n5 < m5 < r2 and m7 < r2
         narrow = [h_ for h_ in hs if inside(h_)]
         pick = pick + (rng.sample(narrow, 25) if len(narrow) > 25 else narrow)
+        # ... and schedules in which the miner's snapshot and hand-over fall between the publication of the delivered block (N6) and the
+        # relay decision (N8): the found block is a child of the delivered one and is the published head when the relay is decided
+        def between(h_):
+            idx = {(st["t"], st["a"]): i for i, st in enumerate(h_[0])}
+            n6, n8, m1, m5 = idx.get(("net", "N6")), idx.get(("net", "N8")), idx.get(("miner", "M1")), idx.get(("miner", "M5"))
+            return None not in (n6, n8, m1, m5) and n6 < m1 and m5 < n8
+        betw = [h_ for h_ in hs if between(h_)]
+        pick = pick + (rng.sample(betw, 15) if len(betw) > 15 else betw)
         traces, info = [], {}
         for k, (h, out) in enumerate(pick):
             tid = 700000 + ntot
@@ -80,7 +95,7 @@ def stage(chk, quick, rng, pid, cfg, keys, build_universe):
             info[tid] = {"delivery": name, "schedule": [[s["t"], s["a"]] for s in h], "feasible_as_dictated": feas, "why_not": why, "observed": obs}
             chk.case(("handover", name, json.dumps(info[tid]["schedule"])), nontrivial=True)
         chk.sample({"two_thread_schedule_of_the_node": info[tid]})
-        tc = {"XValid": xv, "XValidated": xd, "MinerOn": True, "SaveAfterValidation": sw["SaveAfterValidation"], "SelectiveClear": sw["SelectiveClear"], "AtomicRollback": sw["AtomicRollback"], "MinerHandOverValidated": True}
+        tc = {"XValid": xv, "XValidated": xd, "MinerOn": True, "SaveAfterValidation": sw["SaveAfterValidation"], "SelectiveClear": sw["SelectiveClear"], "AtomicRollback": sw["AtomicRollback"], "MinerHandOverValidated": True, "SaveBeforePublish": sw["SaveBeforePublish"] or not sw["SaveAfterValidation"]}
         verdicts, r2 = tracecheck.run("TraceHandover", traces, tc, ids=[t["id"] for t in traces], workers=2, timeout=1200)
         chk.states += r2.distinct
         chk.traces_validated += len(traces)
@@ -122,9 +137,9 @@ def stage_stale_snapshot(chk, pid, cfg, keys, build_universe):
     (C12, last sentence; Handover: A_C12_AdoptedAtHandOver holds whatever the network thread did before M5).  Judged by TLC (TraceFacts)."""
     from checks.store import cb as cbd, blk as blkd
     facts = []
-    for k in range(0, 4):
+    for k, second_miner in [(0, False), (1, False), (2, False), (3, False), (1, True), (2, True)]:
         w, g, blocks, txs = build_universe(cfg, keys)
-        run = hd.HandoverRun(w, g, [blocks[1]], blocks[2], 0, 820000 + k)
+        run = hd.HandoverRun(w, g, [blocks[1]], blocks[2], 0, 820000 + k + (10 if second_miner else 0))
         try:
             Mi = run.thr["miner"]
             Mi.call_stops = False
@@ -137,17 +152,27 @@ def stage_stale_snapshot(chk, pid, cfg, keys, build_universe):
                 d["ts"] = 20 + h
                 run.run.deliver_block("p", w.concretise(d))
                 parent_abs, h = 40 + j, h + 1
+            if second_miner:
+                # another miner process of the same watcher asks for work in between: the watcher's own view moves on to the new head
+                mw_ = run.run.mw
+                q0 = mw_.send_queues[0]
+                mw_.send_queues = [q0, type(q0)()]
+                try:
+                    run.run.node.use_store()
+                    mw_.handle_request_scrypt_input_message(1, 424242)
+                except Exception as e_:
+                    run.errors.append("second miner's request: %r" % e_)
             if run.found:
                 Mi.submit(run._job_found())
                 Mi.wait_idle(20)
             obs = run.finish()
         finally:
             run.close()
-        what = "result of the miner arrives when its snapshot is %d blocks behind" % k
+        what = "result of the miner arrives when its snapshot is %d blocks behind%s" % (k, ", a second miner process asked for work in between" if second_miner else "")
         for clause, ok in (("C12:found_block_not_part_of_the_served_chain_state", obs["b_served"]), ("C12:found_block_not_written_to_store", obs["b_on_disk"]),
                            ("C12:found_block_not_broadcast", obs["b_bcast"]), ("C12:handling_a_found_block_raised", not run.errors)):
             facts.append({"clause": clause, "holds": bool(ok), "what": what + (" %s" % run.errors if run.errors else "")})
-        chk.case(("stale_snapshot", k), nontrivial=k > 0)
+        chk.case(("stale_snapshot", k, second_miner), nontrivial=k > 0)
     v, r = tracecheck.run("TraceFacts", facts, {}, ids=[1], workers=1, timeout=300)
     chk.traces_validated += 1
     chk.states += r.distinct
